@@ -1800,9 +1800,14 @@ impl<'a, 'b, W: Write> SerializeSeq for SeqSer<'a, 'b, W> {
                     self.ser.out.write_str(" ")?;
                     self.ser.pending_space_after_colon = false;
                 }
-                // If at line start, indent appropriately.
+                // If at line start, indent appropriately: deeper than the key this is the
+                // value of (with compact list indentation `self.depth` is the key's own depth).
                 if self.ser.at_line_start {
-                    self.ser.write_indent(self.depth)?;
+                    if self.ser.current_map_depth == Some(self.depth) {
+                        self.ser.write_indent(self.depth + 1)?;
+                    } else {
+                        self.ser.write_indent(self.depth)?;
+                    }
                 }
                 self.ser.out.write_str("[]")?;
                 self.ser.newline()?;
